@@ -1,5 +1,7 @@
 import NunavutVerif.Lemmas.Strop
+import NunavutVerif.Lemmas.StropGlue
 import NunavutVerif.Gen.StropCfg
+import NunavutVerif.Gen.StropGlue
 /-!
 # C09 — identifier stropping always yields valid, unreserved, deterministic identifiers
 
@@ -125,3 +127,213 @@ example : stropBeforeFix cfgWitness [102, 111, 114] [97, 110, 121] = .ok [95, 10
 example : strop cfgWitness [102, 111, 114] [97, 110, 121] = .error .illegalToken := by decide +kernel
 
 end NunavutVerif.Strop
+
+/-!
+# Round 2 — the glue around `strop` (`Model/StropGlue.lean`)
+
+A: configuration ↦ encoder tables (`TokenEncoder.__init__` over an explicit heap of `list` objects);
+B: `Language.filter_id` (string conversion in front, the id types templates and Python sources really pass);
+C: determinism at full strength — the caches (`cached_property _token_encoder`, `lru_cache` on `strop`) as a state machine.
+-/
+namespace NunavutVerif.Strop
+open NunavutVerif.Regex NunavutVerif.StropGlue NunavutVerif.Gen.StropCfg NunavutVerif.Gen.StropGlue
+
+/-! ## A. assembly -/
+
+/-- A1 (the shipped languages, decided over the generated data): the tables the real `TokenEncoder` objects hold
+(`cfgC`, `cfgCpp`, `cfgPy`: dumped by translate/stropcfg.py) are exactly what `assemble` makes of the loaded defaults
+(`doc`: sections, list objects and their sharing regenerated by translate/stropglue.py) and of the language classes' own
+contributions (`code_*`: additional reserved identifiers, failure handlers). -/
+theorem C09_shipped_tables_are_assembled :
+    aget doc.sections [99] = some section_c ∧ aget doc.sections [99, 112, 112] = some section_cpp ∧
+    aget doc.sections [112, 121] = some section_py ∧
+    assemble rangesIsSpace compile doc.cells section_c code_c = .ok cfgC ∧
+    assemble rangesIsSpace compile doc.cells section_cpp code_cpp = .ok cfgCpp ∧
+    assemble rangesIsSpace compile doc.cells section_py code_py = .ok cfgPy := by
+  decide +kernel
+
+/-- A2 (any configuration, any heap): constructing an encoder never writes to an existing `list` object — the heap
+afterwards is the heap before plus fresh objects — and the object the encoder holds exists. -/
+theorem C09_encoder_construction_only_allocates (compile : Str → Option Re) (h : Heap) (sec : Section) (lc : LangCode)
+    (e : Enc) (h' : Heap) (hn : newEncoder compile h sec lc = .ok (e, h')) :
+    ∃ ext, h' = h ++ ext ∧ e.reserved < h'.length :=
+  newEncoder_frame hn
+
+/-- A3 (isolation, any configurations): whatever other encoders are constructed — any sections, any language classes,
+any number, any order, successfully or not — (1) an encoder that exists shows the same tables afterwards, although it may
+hold a `list` object that other sections share, and (2) a section assembles to the same tables afterwards.  One
+language's additions never reach another language's tables. -/
+theorem C09_tables_unaffected_by_other_encoders (space : List (Nat × Nat)) (compile : Str → Option Re) (h : Heap)
+    (others : List (Section × LangCode)) :
+    (∀ e : Enc, e.reserved < h.length → e.cfg space (buildAll compile h others) = e.cfg space h) ∧
+    (∀ sec lc, secWf h.length sec = true →
+      assemble space compile (buildAll compile h others) sec lc = assemble space compile h sec lc) := by
+  obtain ⟨ext, hext⟩ := buildAll_append compile h others
+  rw [hext]
+  exact ⟨fun e he => cfg_append space h ext e he, fun sec lc hwf => assemble_append space compile h ext sec lc hwf⟩
+
+/-- A3 on the shipped data: in one `LanguageContext` (one loaded document: `c` and `cpp` name the same list object),
+after the encoders of the other languages were built in any order and any multiplicity, each shipped language still
+assembles to its tables. -/
+theorem C09_shipped_tables_in_every_construction_order (others : List (Section × LangCode)) :
+    assemble rangesIsSpace compile (buildAll compile doc.cells others) section_c code_c = .ok cfgC ∧
+    assemble rangesIsSpace compile (buildAll compile doc.cells others) section_cpp code_cpp = .ok cfgCpp ∧
+    assemble rangesIsSpace compile (buildAll compile doc.cells others) section_py code_py = .ok cfgPy := by
+  have hwf : secWf doc.cells.length section_c = true ∧ secWf doc.cells.length section_cpp = true ∧
+      secWf doc.cells.length section_py = true := by decide +kernel
+  have h := (C09_tables_unaffected_by_other_encoders rangesIsSpace compile doc.cells others).2
+  have t := C09_shipped_tables_are_assembled
+  rw [h _ _ hwf.1, h _ _ hwf.2.1, h _ _ hwf.2.2]
+  exact ⟨t.2.2.2.1, t.2.2.2.2.1, t.2.2.2.2.2⟩
+
+/-! non-vacuity of A3: the two sections really share an object, and the statement separates `a = a + b` from `a += b`:
+with the in-place variant (NOT the code) building a C++ encoder that brings `std` along changes what the C section
+assembles to. -/
+example : getList section_c kReserved = getList section_cpp kReserved ∧ (getList section_c kReserved).isSome = true := by
+  decide +kernel
+
+example : (match newEncoderExtendInPlace compile doc.cells section_cpp { code_cpp with additional := some [[115, 116, 100]] } with
+    | .ok (_, h2) => decide (assemble rangesIsSpace compile h2 section_c code_c ≠ .ok cfgC)
+    | .error _ => false) = true := by decide +kernel
+
+example : (match newEncoder compile doc.cells section_cpp { code_cpp with additional := some [[115, 116, 100]] } with
+    | .ok (_, h2) => decide (assemble rangesIsSpace compile h2 section_c code_c = .ok cfgC)
+    | .error _ => false) = true := by decide +kernel
+
+/-! ## B. `Language.filter_id` -/
+
+/-- B1 (shipped configurations, every instance — string, number, bool, `None`, object with a `name` — whose string form
+is not empty, every id type): what `filter_id` returns is a valid, unreserved identifier. -/
+theorem C09_filter_id_valid_unreserved (cfg : Cfg) (hcfg : cfg = cfgC ∨ cfg = cfgCpp ∨ cfg = cfgPy)
+    (i : Inst) (ty r : Str) (hne : rawName i ≠ []) (h : filterId true cfg i ty = .ok r) :
+    acceptable cfg (lowerAscii ty) r = true := by
+  simp only [filterId, ↓reduceIte] at h
+  exact C09_shipped_valid_unreserved cfg hcfg (rawName i) ty r hne h
+
+/-- B1 for instances that are not strings (numbers, bools, `None`, directly or as the `name` of an object): no side
+condition, `str()` of them is never empty. -/
+theorem C09_filter_id_of_non_string_instance (cfg : Cfg) (hcfg : cfg = cfgC ∨ cfg = cfgCpp ∨ cfg = cfgPy)
+    (a : Atom) (ha : ∀ s, a ≠ .text s) (ty r : Str) :
+    (filterId true cfg (.plain a) ty = .ok r → acceptable cfg (lowerAscii ty) r = true) ∧
+    (filterId true cfg (.named a) ty = .ok r → acceptable cfg (lowerAscii ty) r = true) :=
+  ⟨C09_filter_id_valid_unreserved cfg hcfg _ ty r (by simpa [rawName] using atomStr_ne_nil a ha),
+   C09_filter_id_valid_unreserved cfg hcfg _ ty r (by simpa [rawName] using atomStr_ne_nil a ha)⟩
+
+/-- B2 (recorded reading, ANY configuration): an id type that has no entry of its own — neither reserved patterns nor
+encoding rules — is treated exactly as if the configuration had its `all` entries only. -/
+theorem C09_unknown_id_type_falls_back_to_all (cfg : Cfg) (tok ty : Str) (hu : unknownType cfg ty = true) :
+    strop cfg tok ty = strop (allOnly cfg) tok ty :=
+  (strop_allOnly cfg tok ty hu).symm
+
+/-- `ValueError` is raised for the id type `all` and for nothing else (any configuration). -/
+theorem C09_value_error_iff_type_all (cfg : Cfg) (tok ty : Str) :
+    strop cfg tok ty = .error .valueError ↔ lowerAscii ty = tyAll :=
+  ⟨strop_valueError, C09_type_all_is_value_error cfg tok ty⟩
+
+/-- B3 (a fact about the generated call-site table: every `| id…` / `short_reference_name(id_type=…)` in every shipped
+template, every call of `filter_id` / `filter_short_reference_name` / `strop` / `filter_id_for_target` in the Python
+sources, with its literal id type): the site belongs to a stropping language; its id type is never `all`; it is `any`, or
+an id type the language configures, or — the only id type in use that falls back to `all` — `path`. -/
+theorem C09_id_site_table_facts :
+    idSites ≠ [] ∧
+    ∀ s ∈ idSites, (cfgOfLang s.lang).isSome = true ∧ lowerAscii s.ty ≠ tyAll ∧
+      ∀ cfg, cfgOfLang s.lang = some cfg →
+        (unknownType cfg s.ty = false ∨ s.ty = [112, 97, 116, 104]) := by
+  decide +kernel
+
+/-- B3, the property at every call site: for every id type a shipped template or Python source passes, on every
+instance with a non-empty string form, `filter_id` does not raise `ValueError`, whatever it returns is a valid, unreserved
+identifier, and where the language has no entries for the id type the answer is the `all`-only answer. -/
+theorem C09_every_used_id_type_is_handled (s : Site) (hs : s ∈ idSites) :
+    ∃ cfg, cfgOfLang s.lang = some cfg ∧ ∀ (i : Inst), rawName i ≠ [] →
+      filterId true cfg i s.ty ≠ .error .valueError ∧
+      (∀ r, filterId true cfg i s.ty = .ok r → acceptable cfg (lowerAscii s.ty) r = true) ∧
+      (unknownType cfg s.ty = true → filterId true cfg i s.ty = filterId true (allOnly cfg) i s.ty) := by
+  obtain ⟨hsome, hall, _⟩ := C09_id_site_table_facts.2 s hs
+  cases hc : cfgOfLang s.lang with
+  | none => simp [hc] at hsome
+  | some cfg =>
+    refine ⟨cfg, rfl, ?_⟩
+    have hcfg : cfg = cfgC ∨ cfg = cfgCpp ∨ cfg = cfgPy := by
+      unfold cfgOfLang at hc
+      split at hc
+      · exact Or.inl (Option.some.inj hc).symm
+      · split at hc
+        · exact Or.inr (Or.inl (Option.some.inj hc).symm)
+        · split at hc
+          · exact Or.inr (Or.inr (Option.some.inj hc).symm)
+          · cases hc
+    intro i hne
+    refine ⟨?_, fun r hr => C09_filter_id_valid_unreserved cfg hcfg i s.ty r hne hr, ?_⟩
+    · simp only [filterId, ↓reduceIte]
+      intro hv
+      exact hall ((C09_value_error_iff_type_all cfg _ _).mp hv)
+    · intro hu
+      simp only [filterId, ↓reduceIte]
+      exact C09_unknown_id_type_falls_back_to_all cfg _ _ hu
+
+/-! ## C. determinism: the caches -/
+
+/-- the generated defaults document is closed: its sections name its own list objects only -/
+theorem C09_generated_document_closed : docWf Gen.StropGlue.env.doc = true := by decide +kernel
+
+/-- C1: the invariant — every cached `_token_encoder` shows what its section assembles to, every entry of the
+`lru_cache` is what `strop` answers for its key, all references are live — holds initially and is preserved by every
+step (a new context with any overrides, any call of any context's `filter_id`). -/
+theorem C09_cache_invariant (env : Env) (hd : docWf env.doc = true) :
+    Inv env Proc.init ∧ ∀ p op, Inv env p → Inv env (step env p op) :=
+  ⟨inv_init env, fun _ op hi => (step_spec hd hi op).inv⟩
+
+/-- C2: in every state that satisfies the invariant a call answers what the specification answers — a fresh encoder
+assembled from the context's configuration, `strop` on it, no cache — whatever the caches hold. -/
+theorem C09_answer_is_pure_function (env : Env) (p : Proc) (hi : Inv env p) (ci : Nat) (ctx : Ctx)
+    (hc : p.ctxs[ci]? = some ctx) (lang : Str) (inst : Inst) (ty : Str) :
+    (use env p ci lang inst ty).2.result = pureAnswer env p.heap ctx.sections lang inst ty :=
+  (use_spec hi ci lang inst ty).2 ctx hc
+
+/-- C3 (history independence, full strength): after ANY further history — new contexts in any languages with any
+overrides, calls of any context's any language with any instances and id types, cache hits, misses, evictions, failed
+constructions — the answer of a context is still the function of (its configuration, language, instance, id type) it
+was before. -/
+theorem C09_answer_independent_of_history (env : Env) (hd : docWf env.doc = true) (p : Proc) (hi : Inv env p)
+    (ops : List Op) (ci : Nat) (ctx : Ctx) (hc : p.ctxs[ci]? = some ctx) (lang : Str) (inst : Inst) (ty : Str) :
+    (use env (run env p ops) ci lang inst ty).2.result = pureAnswer env p.heap ctx.sections lang inst ty := by
+  have hx := run_spec hd ops hi
+  obtain ⟨ctx', hc', hsec⟩ := hx.ctxs ci ctx hc
+  obtain ⟨ext, hext⟩ := hx.heap
+  rw [C09_answer_is_pure_function env _ hx.inv ci ctx' hc' lang inst ty, hsec, hext]
+  exact pureAnswer_append env p.heap ext ctx.sections lang inst ty
+    (fun sec hs => hi.secs ctx (List.mem_of_getElem? hc) lang sec hs)
+
+/-- C3 in the property's words: two processes that created the same context and then went through different histories
+answer the same call alike. -/
+theorem C09_same_call_same_answer (env : Env) (hd : docWf env.doc = true) (p : Proc) (hi : Inv env p)
+    (ops1 ops2 : List Op) (ci : Nat) (hc : ci < p.ctxs.length) (lang : Str) (inst : Inst) (ty : Str) :
+    (use env (run env p ops1) ci lang inst ty).2.result = (use env (run env p ops2) ci lang inst ty).2.result := by
+  have hget : p.ctxs[ci]? = some p.ctxs[ci] := List.getElem?_eq_getElem hc
+  rw [C09_answer_independent_of_history env hd p hi ops1 ci _ hget, C09_answer_independent_of_history env hd p hi ops2 ci _ hget]
+
+/-! non-vacuity of C: on the generated environment, a history with a second context, a cache hit and an error; the
+cache answers the third call (`hit`), the answer is the specification's. -/
+section examples
+private def lit2 (x : String) : Str := x.toList.map Char.toNat
+private def hist : List Op :=
+  [.load (lit2 "c") [], .use 0 (lit2 "c") (.plain (.text (lit2 "for"))) (lit2 "any"),
+   .load (lit2 "cpp") [(lit2 "stropping_suffix", .str (lit2 "_s"))], .use 1 (lit2 "cpp") (.named (.text (lit2 "std"))) (lit2 "any"),
+   .use 0 (lit2 "cpp") (.plain (.int false 7)) (lit2 "any"), .use 0 (lit2 "c") (.plain (.text (lit2 "x"))) (lit2 "all")]
+
+example : (use Gen.StropGlue.env (run Gen.StropGlue.env Proc.init hist) 0 (lit2 "c") (.plain (.text (lit2 "for"))) (lit2 "any")).2
+    = ⟨.ok (lit2 "_for"), false, true⟩ := by decide +kernel
+example : (use Gen.StropGlue.env (run Gen.StropGlue.env Proc.init hist) 1 (lit2 "cpp") (.plain (.text (lit2 "std"))) (lit2 "any")).2
+    = ⟨.ok (lit2 "_std_s"), false, true⟩ := by decide +kernel
+example : (use Gen.StropGlue.env (run Gen.StropGlue.env Proc.init hist) 0 (lit2 "cpp") (.plain (.text (lit2 "std"))) (lit2 "any")).2
+    = ⟨.ok (lit2 "_std"), false, false⟩ := by decide +kernel
+example : filterId true cfgPy (.plain (.int true 12)) (lit2 "any") = .ok (lit2 "zX002D12") ∧
+    filterId true cfgC (.named .none) (lit2 "any") = .ok (lit2 "None") ∧
+    filterId true cfgPy (.named .none) (lit2 "any") = .ok (lit2 "None_") := by decide +kernel
+example : unknownType cfgC (lit2 "path") = true ∧ unknownType cfgC (lit2 "macro") = false ∧ unknownType cfgPy (lit2 "macro") = true := by
+  decide +kernel
+end examples
+
+end NunavutVerif.Strop
+
